@@ -5,6 +5,21 @@ HERE = os.path.dirname(os.path.dirname(os.path.abspath(__file__)))
 ALL = [f"C{i:02d}" for i in range(1, 19)]
 # property -> (technique, level text, level note, design_ref)
 CHECKS = {
+ "C01": ("runtime reference monitor on the real methods: jitted+vmapped bundles execute transform/inverse/*_and_log_det of generated "
+         "bijection expressions on boundary-directed inputs; the round-trip identity is the oracle, with a conditioning-scaled "
+         "tolerance derived from the float64 autodiff Jacobian",
+         "Exploration: ~270 structures (all leaf classes and variants, every combinator, 5 flow factories x orientation x cond x "
+         "transformer, random trees) x 3 parameter draws x ~150 inputs in both directions per quick run (1.2e5 cases); held = held on "
+         "the compared (well-conditioned) cases; ill-conditioned cases are executed and counted but not compared.",
+         "Trusts jax.jacfwd/NumPy linalg for the conditioning estimate, the tolerance model of DESIGN.md 3.5 and the harness-side "
+         "equinox shim that makes BNAF/triangular-spline flows constructible in this environment.",
+         "DESIGN.md 4/C01"),
+ "C02": ("runtime reference monitor: reported log-dets of the real *_and_log_det methods vs log|det| of the float64 autodiff Jacobian "
+         "of the plain transform (host-side slogdet), tie-aware (k log 2) and neighbour-envelope second pass at kinks",
+         "Exploration: same generated structures/parameters/inputs as C01 (1.2e5 cases per quick run), forward and inverse "
+         "log-dets, inverse compared at the point the library returned; non-trivial cases have |log det| > 1e-6.",
+         "Trusts jax.jacfwd of the plain transform as an independent oracle and NumPy slogdet; oracle-noise gates as stated in evidence.assumptions.",
+         "DESIGN.md 4/C02"),
  "C10": ("runtime trace monitor: a harness bijection-like object records every evaluation point the search requests "
          "(ordered host callbacks); offline trace checker for bounded progress (logical steps, abort from inside the callback) "
          "and accuracy against roots known by construction; real BNAF inverses with far targets",
